@@ -84,7 +84,7 @@ def vf : P String := do
       let best := envV m.S top b
       let vd := vd.failIf (!(closeQ tol mine best) && mine < best) s!"Policy first_action_not_argmax got={qstr mine} max={qstr best}"
       if shapeOK then
-        let ex := execReturn (cutModel m) v H q.id b
+        let ex := execFast (cutModel m) v H q.id q.b
         vd.failIf (!(closeQ tol ex mine)) s!"{comp} exec_return_mismatch exec={qstr ex} promised={qstr mine}"
       else vd) vd
   -- statistics only: exact agreement, model's own argmax, greedy w.r.t. the look-ahead on the previous envelope
@@ -265,7 +265,7 @@ def execBad (m : Pomdp) (v : VF) (bs : List (List Rat)) : Option String :=
   (bs.take 6).findSome? (fun bl =>
     let b := bfun bl
     let id := (bestAtPoint m.S b top).1
-    let ex := execReturn (cutModel m) v H id b
+    let ex := execFast (cutModel m) v H id bl
     let pr := dot m.S b (val (entryAt top id))
     if closeQ tol ex pr then none else some s!"exec_return_mismatch exec={qstr ex} promised={qstr pr}")
 
